@@ -127,6 +127,27 @@ type xlate struct {
 	// `p[i]` of a []byte variable as a bounds-unchecked load (the statement carries the check), `len(p)` as the length
 	stateVars  map[string]*svar
 	bytesIndex bool
+	recv       string // method translation: name of the receiver; `recv.f` is the state variable `recv_f`
+}
+
+// stateName: the state variable an identifier or a receiver field denotes ("" if none)
+func (x *xlate) stateName(e ast.Expr) string {
+	switch e := e.(type) {
+	case *ast.Ident:
+		if x.stateVars != nil {
+			if _, ok := x.stateVars[e.Name]; ok {
+				return e.Name
+			}
+		}
+	case *ast.SelectorExpr:
+		if id, ok := e.X.(*ast.Ident); ok && x.recv != "" && id.Name == x.recv {
+			n := x.recv + "_" + e.Sel.Name
+			if _, ok := x.stateVars[n]; ok {
+				return n
+			}
+		}
+	}
+	return ""
 }
 
 func constantOne() constant.Value { return constant.MakeInt64(1) }
@@ -169,11 +190,16 @@ func (x *xlate) expr(e ast.Expr) string {
 			}
 		}
 		return e.Name
+	case *ast.SelectorExpr:
+		if n := x.stateName(e); n != "" {
+			return "s." + n
+		}
+		return x.fail(e, "unsupported selector expression")
 	case *ast.IndexExpr:
 		if x.bytesIndex {
-			if id, ok := e.X.(*ast.Ident); ok {
-				if v, ok := x.stateVars[id.Name]; ok && v.kind == "bytes" {
-					return fmt.Sprintf("(Go.rd s.%s (%s).toNat)", id.Name, x.expr(e.Index))
+			if n := x.stateName(e.X); n != "" {
+				if v := x.stateVars[n]; v.kind == "bytes" {
+					return fmt.Sprintf("(Go.rd s.%s (%s).toNat)", n, x.expr(e.Index))
 				}
 			}
 		}
@@ -261,15 +287,15 @@ func (x *xlate) expr(e ast.Expr) string {
 			}
 		}
 		args := make([]string, len(e.Args))
-		for i, a := range e.Args {
-			args[i] = x.expr(a)
+		if name != "len" {
+			for i, a := range e.Args {
+				args[i] = x.expr(a)
+			}
 		}
 		switch name {
 		case "len":
-			if id, ok := e.Args[0].(*ast.Ident); ok && x.stateVars != nil {
-				if v, ok := x.stateVars[id.Name]; ok && v.kind == "bytes" {
-					return fmt.Sprintf("(BitVec.ofNat 64 s.%s.length)", id.Name)
-				}
+			if n := x.stateName(e.Args[0]); n != "" && x.stateVars[n].kind == "bytes" {
+				return fmt.Sprintf("(BitVec.ofNat 64 s.%s.length)", n)
 			}
 			return x.fail(e, "unsupported len()")
 		case "bits.Len64":
